@@ -375,6 +375,49 @@ m("C06", "restart-cleaning-up-reopens", "impl/impl.go",
   "	if channels.IsChannelCleaningUp(channel.Status()) {\n		_ = m.channels.CompleteCleanupOnRestart(channel.ChannelID())\n	}",
   "C06.5", "restart of a cleaning-up channel goes on to re-open it")
 
+# ---------------- C13
+MIG = "channels/internal/migrations/migrations.go"
+m("C13", "stage-log-dropped", MIG,
+  "		Stages:               oldChannelState.Stages,\n",
+  "",
+  "C13.1", "migration drops the stage log", "calibration")
+m("C13", "blocks-totals-crossed", MIG,
+  "		SentBlocksTotal:      oldChannelState.SentBlocksTotal,",
+  "		SentBlocksTotal:      oldChannelState.QueuedBlocksTotal,",
+  "C13.1", "sent block index migrated from the queued one")
+m("C13", "bothpaused-only-initiator", MIG,
+  "	responderPaused := oldChannelState.Status == datatransfer.ResponderPaused || oldChannelState.Status == datatransfer.BothPaused",
+  "	responderPaused := oldChannelState.Status == datatransfer.ResponderPaused",
+  "C13.2", "BothPaused migrates with only the initiator flag")
+m("C13", "paused-status-kept", MIG,
+  "	if newStatus == datatransfer.ResponderPaused || newStatus == datatransfer.InitiatorPaused || newStatus == datatransfer.BothPaused {",
+  "	if newStatus == datatransfer.ResponderPaused || newStatus == datatransfer.BothPaused {",
+  "C13.2", "InitiatorPaused status survives the migration")
+m("C13", "migration-folds-cancelled", MIG,
+  "	if newStatus == datatransfer.ResponderPaused || newStatus == datatransfer.InitiatorPaused || newStatus == datatransfer.BothPaused {",
+  "	if newStatus > datatransfer.Cancelling && newStatus <= datatransfer.BothPaused {",
+  "C13.2", "Cancelled channel rewritten to Ongoing", "seeded/C02a")
+m("C13", "v2-decoder-case-lost", "channels/internal/migrations/migrations_cbor_gen.go",
+  "		case \"DataLimit\":\n",
+  "		case \"Datalimit\":\n",
+  "C13.3", "v2 DataLimit is not read from an old store")
+m("C13", "wrong-target-version", CH,
+  "	}, channelMigrations, versioning.VersionKey(\"3\"))",
+  "	}, channelMigrations, versioning.VersionKey(\"2\"))",
+  "C13.4", "store opened at the old schema version")
+m("C13", "ready-published-twice", "impl/impl.go",
+  "		err = m.readySub.Publish(err)\n		if err != nil {",
+  "		_ = m.readySub.Publish(err)\n		err = m.readySub.Publish(err)\n		if err != nil {",
+  "C13.5", "readiness announced twice")
+m("C13", "ready-without-outcome", "impl/impl.go",
+  "		err = m.readySub.Publish(err)\n		if err != nil {",
+  "		err = m.readySub.Publish(nil)\n		if err != nil {",
+  "C13.5", "readiness announced without the migration outcome")
+m("C13", "old-version-missing", MIG,
+  "		versioned.NewVersionedBuilder(MigrateChannelState2To3, \"3\").OldVersion(\"2\"),",
+  "		versioned.NewVersionedBuilder(MigrateChannelState2To3, \"3\"),",
+  "C13.4", "2→3 migration not chained after version 2")
+
 by = collections.defaultdict(list)
 for x in M:
     p = x.pop("prop")
